@@ -203,17 +203,62 @@ class CallGraph:
                     cs.kind = "render-dispatch"
                     return cs
         # rule = self.rules[kind] / self.rules.get(kind); rule(tokens, idx, options, env)
+        def is_rule_lookup(d: ast.AST) -> bool:
+            if isinstance(d, ast.Subscript) and isinstance(d.value, ast.Attribute) and d.value.attr == "rules":
+                return sc.type(d.value.value) == "RendererHTML"
+            if isinstance(d, ast.Call) and isinstance(d.func, ast.Attribute) and d.func.attr == "get" and isinstance(d.func.value, ast.Attribute) \
+                    and d.func.value.attr == "rules":
+                return sc.type(d.func.value.value) == "RendererHTML"
+            return False
+
+        def rule_getter(d: ast.AST) -> list[Func] | None:
+            """d = self.<getter>(...) where every return of the getter is a lookup in the rule table or a bound method of the
+            renderer (the default): the extra methods it can hand out, or None."""
+            if not (isinstance(d, ast.Call) and isinstance(d.func, ast.Attribute) and isinstance(d.func.value, ast.Name) and f.cls
+                    and f.node.args.args and d.func.value.id == f.node.args.args[0].arg):
+                return None
+            g = self.p.method(f.cls, d.func.attr)
+            if g is None or g is f:
+                return None
+            gsc = self.tf.scope(g)
+            selfn = g.node.args.args[0].arg if g.node.args.args else "self"
+            rets = [x.value for x in own_nodes(g.node) if isinstance(x, ast.Return) and x.value is not None]
+            extra: list[Func] = []
+            seen_lookup = False
+            for rv in rets:
+                alts = [rv.body, rv.orelse] if isinstance(rv, ast.IfExp) else [rv]
+                for a_ in alts:
+                    if (isinstance(a_, ast.Subscript) and isinstance(a_.value, ast.Attribute) and a_.value.attr == "rules"
+                            and gsc.type(a_.value.value) == "RendererHTML") or \
+                            (isinstance(a_, ast.Call) and isinstance(a_.func, ast.Attribute) and a_.func.attr == "get"
+                             and isinstance(a_.func.value, ast.Attribute) and a_.func.value.attr == "rules"):
+                        seen_lookup = True
+                        if isinstance(a_, ast.Call) and len(a_.args) == 2 and isinstance(a_.args[1], ast.Attribute) \
+                                and isinstance(a_.args[1].value, ast.Name) and a_.args[1].value.id == selfn:
+                            m_ = self.p.method(g.cls, a_.args[1].attr)
+                            if m_ is not None:
+                                extra.append(m_)
+                    elif isinstance(a_, ast.Attribute) and isinstance(a_.value, ast.Name) and a_.value.id == selfn:
+                        m_ = self.p.method(g.cls, a_.attr)
+                        if m_ is None:
+                            return None
+                        extra.append(m_)
+                    else:
+                        return None
+            return extra if seen_lookup else None
+        if isinstance(fn, ast.Call):
+            ex = rule_getter(fn)
+            if ex is not None:
+                cs.callees = list(dict.fromkeys(list(self.reg.render_rules.values()) + ex))
+                cs.kind = "render-dispatch"
+                return cs
         if isinstance(fn, ast.Name) and sc.is_local(fn.id):
             ds = [x.value for x in own_nodes(f.node) if isinstance(x, ast.Assign) and any(isinstance(t_, ast.Name) and t_.id == fn.id for t_ in x.targets)]
-            def is_rule_lookup(d: ast.AST) -> bool:
-                if isinstance(d, ast.Subscript) and isinstance(d.value, ast.Attribute) and d.value.attr == "rules":
-                    return sc.type(d.value.value) == "RendererHTML"
-                if isinstance(d, ast.Call) and isinstance(d.func, ast.Attribute) and d.func.attr == "get" and isinstance(d.func.value, ast.Attribute) \
-                        and d.func.value.attr == "rules":
-                    return sc.type(d.func.value.value) == "RendererHTML"
-                return False
-            if ds and all(is_rule_lookup(d) for d in ds):
-                cs.callees = list(self.reg.render_rules.values())
+            if ds and all(is_rule_lookup(d) or rule_getter(d) is not None for d in ds):
+                ex2: list[Func] = []
+                for d in ds:
+                    ex2 += rule_getter(d) or []
+                cs.callees = list(dict.fromkeys(list(self.reg.render_rules.values()) + ex2))
                 cs.kind = "render-dispatch"
                 return cs
         # --- ordinary resolution
